@@ -69,6 +69,9 @@ ASSUMPTIONS = [
     "max_table_size: only the necessary consequence of the documentation is judged (a returned alignment whose aligned region "
     "forces a table growth beyond the limit must have raised MemoryError; a MemoryError needs a region longer than the initial 100x100 table)",
     "the Cython entry points cannot be counted with sys.monitoring; they are counted at the call site (operation histogram)",
+    "match_run_reached reads 'the threshold cannot bind' locally: along a run of matches that all score the matrix maximum the "
+    "running score never lies below any other cell's score, so no X-drop rule with threshold >= 0 may stop inside the run "
+    "(the statement names the global case; the local case is the same argument applied to the run through the seed)",
 ]
 MIN_CASES_PER_WORKER = 10
 MANIFEST = {
